@@ -181,6 +181,26 @@ def export_text_tables():
     if not all(isinstance(k, int) and isinstance(v, int) for k, v in U._log2.items()):
         raise TieBroken('unexpected _log2 table')
     L.append('Definition log2_table : list (Z * Z) := [%s].\n' % '; '.join('(%d, %d)' % kv for kv in U._log2.items()))
+    # per-defect switches, probed on the implementation (the model follows the repaired code)
+    from ppci.wasm import Module
+    from ppci.wasm.components import Instruction, Ref
+    try:
+        m = Module('(module (type (func)) (func (type 0) memory.fill 0 nop))')
+        ins = [d for d in m.definitions if d.__name__ == 'func'][0].instructions
+        u8 = [i.opcode for i in ins] == ['memory.fill', 'nop']
+    except Exception:   # noqa: BLE001
+        u8 = False
+    L.append('(* the text parser consumes an integer token for a U8 operand when one is present *)')
+    L.append('Definition text_u8_consumes : bool := %s.\n' % ('true' if u8 else 'false'))
+    txt = Instruction('call_indirect', Ref('type', index=2), Ref('table', index=1)).to_string()
+    if txt == 'call_indirect 1 (type 2)':
+        ci = True
+    elif txt == 'call_indirect (type 2) (const.i64 1)':
+        ci = False
+    else:
+        raise TieBroken('unexpected text of call_indirect: %r' % (txt,))
+    L.append('(* call_indirect on table n <> 0 is printed "call_indirect n (type t)" *)')
+    L.append('Definition text_ci_table_first : bool := %s.\n' % ('true' if ci else 'false'))
     return '\n'.join(L)
 
 
@@ -1195,7 +1215,7 @@ def text_validation(ctx, n):
 
 
 PROOFS = ['Proofs/C21_leb.vo', 'Proofs/C21_instr.vo', 'Proofs/C21_defs.vo', 'Proofs/C21_module.vo', 'Proofs/C21_spec.vo',
-          'Proofs/C21_canon.vo', 'Proofs/C21_text.vo']
+          'Proofs/C21_canon.vo', 'Proofs/C21_text.vo', 'Proofs/C21_textdefs.vo']
 
 
 def run(ctx):
@@ -1205,7 +1225,7 @@ def run(ctx):
     if ok:
         ctx.check_props('Props/C21.v')
     # ---- correspondence: hand model (over the regenerated tables) vs implementation
-    if ctx.build(['Model/WasmBinVal.vo', 'Model/WasmText.vo'])[0]:
+    if ctx.build(['Model/WasmBinVal.vo', 'Model/WasmText.vo', 'Model/WasmTextDefs.vo'])[0]:
         try:
             correspondence(ctx, quick, dmax)
         except Exception as ex:   # noqa: BLE001
@@ -1236,7 +1256,7 @@ def run_cases_retry(ctx, name, cases, shard, imports=None):
     if bad is None:
         ctx.failed_stages[:] = [s for s in ctx.failed_stages if s[0] != 'cases_' + name]
         ctx.cov['evaluations'] -= len(cases)
-        ctx.build(['Model/WasmBinVal.vo', 'Model/WasmText.vo'] + PROOFS)
+        ctx.build(['Model/WasmBinVal.vo', 'Model/WasmText.vo', 'Model/WasmTextDefs.vo'] + PROOFS)
         bad = ctx.run_cases(name, imports, cases, shard=shard)
     return bad
 
@@ -1251,12 +1271,15 @@ def correspondence(ctx, quick, dmax):
             ctx.note_sample({'kind': r[0], 'value': repr(r[1])[:300]})
         c5, r5, tstats = corr_text(ctx, 150 if quick else 1500)
         ctx.cov['stages']['text_instruction_model'] = tstats
+        c6, r6, dstats = corr_text_defs(ctx, 25 if quick else 300)
+        ctx.cov['stages']['text_definition_model'] = dstats
         c4, r4 = corr_canonical(ctx, r1, 120 if quick else 900)
         ctx.cov['stages']['correspondence_distribution']['canonical_predicate_cases'] = len(c4)
         ctx.cov['stages']['correspondence_distribution']['canonical_true'] = sum(1 for r in r4 if r[2])
         for name, cases, recs, shard in (('modules', c1, r1, 20), ('instrs', c2, r2, 120), ('malformed', c3, r3, 60),
-                                         ('canon', c4, r4, 30), ('text', c5, r5, 40)):
-            imports = IMPORTS + ['Proofs.C21_canon'] if name == 'canon' else (TEXT_IMPORTS if name == 'text' else IMPORTS)
+                                         ('canon', c4, r4, 30), ('text', c5, r5, 40), ('textdefs', c6, r6, 40)):
+            imports = IMPORTS + ['Proofs.C21_canon'] if name == 'canon' else (
+                TEXT_IMPORTS if name == 'text' else (TEXT_IMPORTS + ['Model.WasmTextDefs'] if name == 'textdefs' else IMPORTS))
             bad = run_cases_retry(ctx, name, cases, shard, imports)
             if bad:
                 for i in bad[:5]:
@@ -1736,6 +1759,19 @@ def gen_text_instr_list(rng, n):
     return body[:k] + extra + body[k:]
 
 
+def spelling_reads_back(kn, raw, sp):
+    """does the implementation's float() reading of its own spelling give the same constant?"""
+    from ppci.wasm.util import make_float
+    try:
+        try:
+            x = make_float(sp, bits=32 if kn == 'F32' else 64)
+        except TypeError:
+            x = make_float(sp)
+        return float_raw(kn, x) == raw
+    except Exception:   # noqa: BLE001
+        return False
+
+
 def corr_text(ctx, n):
     import math
     from ppci.wasm import Module, components as C
@@ -1751,8 +1787,9 @@ def corr_text(ctx, n):
                 if isinstance(a, float):
                     kn = k.name
                     raw = float_raw(kn, a)
-                    x = struct.unpack('<f' if kn == 'F32' else '<d', raw)[0]
-                    (t32 if kn == 'F32' else t64)[raw] = repr(x)
+                    # the implementation's spelling of this constant
+                    sp = Instruction('f32.const' if kn == 'F32' else 'f64.const', a).to_string().split(' ', 1)[1]
+                    (t32 if kn == 'F32' else t64)[raw] = sp
         fs = 'table_fspell [%s] [%s]' % ('; '.join('(%s, "%s"%%string)' % (zl(r), s) for r, s in t32.items()),
                                          '; '.join('(%s, "%s"%%string)' % (zl(r), s) for r, s in t64.items()))
         term, val = expr_repr(ins)
@@ -1770,9 +1807,12 @@ def corr_text(ctx, n):
         if out_print is Internal:
             stats['print_fails'] += 1
             continue
-        # a nan repr is ambiguous as a table key: skip the re-parse comparison for nan payloads (known finding)
-        if any(s == 'nan' for s in list(t32.values()) + list(t64.values())):
+        # two constants with one spelling (NaN payloads before the repair): the table is ambiguous, skip the re-parse
+        if len(set(t32.values())) < len(t32) or len(set(t64.values())) < len(t64):
             continue
+        if not all(spelling_reads_back('F32', r, sp) for r, sp in t32.items()) or \
+                not all(spelling_reads_back('F64', r, sp) for r, sp in t64.items()):
+            continue    # the known finding (NaN sign/payload lost in the text form), reported by known_witnesses
         text = '(module (type (func)) (func (type 0) %s))' % ' '.join(texts)
         try:
             back = with_alarm(5, lambda: [d for d in Module(text).definitions if isinstance(d, C.Func)][0].instructions)
@@ -1783,4 +1823,46 @@ def corr_text(ctx, n):
             stats['reparse_fails'] += 1
         cases.append(('text_parse_val (%s) %s' % (fs, term), out_parse))
         recs.append(('text-parse', val, None))
+    return cases, recs, stats
+
+
+# ---------------------------------------------------------------- text form, definition level (memory/table/global/func)
+def corr_text_defs(ctx, n):
+    from ppci.wasm import Module, components as C
+    import ppci.wasm.opcodes as O
+    cases, recs = [], []
+    stats = {'definitions': 0, 'memory': 0, 'table': 0, 'global': 0, 'func': 0}
+    for _ in range(n):
+        defs = gen_text_module_defs(ctx.rng)
+        try:
+            m = Module(make_module(defs).to_bytes())
+            m2 = with_alarm(10, lambda: Module(m.to_string()))
+        except Exception:   # noqa: BLE001
+            continue
+        if len(m.definitions) != len(m2.definitions):
+            continue
+        for d, d2 in zip(m.definitions, m2.definitions):
+            if not isinstance(d, (C.Memory, C.Table, C.Global, C.Func)):
+                continue
+            ins = list(d.init) if isinstance(d, C.Global) else (list(d.instructions) if isinstance(d, C.Func) else [])
+            t32, t64 = {}, {}
+            ok = True
+            for i in ins:
+                for k, a in zip(O.OPERANDS.get(i.opcode, ()), i.args):
+                    if isinstance(a, float):
+                        raw = float_raw(k.name, a)
+                        sp = C.Instruction('f32.const' if k.name == 'F32' else 'f64.const', a).to_string().split(' ', 1)[1]
+                        (t32 if k.name == 'F32' else t64)[raw] = sp
+                        ok = ok and spelling_reads_back(k.name, raw, sp)
+            if not ok or len(set(t32.values())) < len(t32) or len(set(t64.values())) < len(t64):
+                continue
+            fs = 'table_fspell [%s] [%s]' % ('; '.join('(%s, "%s"%%string)' % (zl(r), s) for r, s in t32.items()),
+                                             '; '.join('(%s, "%s"%%string)' % (zl(r), s) for r, s in t64.items()))
+            term, val = defn_repr(d)
+            stats['definitions'] += 1
+            stats[d.__name__] += 1
+            cases.append(('text_def_print_val (%s) (%s)' % (fs, term), OkV(real_tokens(d.to_string()))))
+            recs.append(('textdef-print', val, None))
+            cases.append(('text_def_parse_val (%s) (%s)' % (fs, term), OkV(defn_repr(d2)[1])))
+            recs.append(('textdef-parse', val, None))
     return cases, recs, stats
